@@ -43,10 +43,14 @@ def run_companion(run, keys, functions):
     from vf.contracts.corpora import CORPORA
 
     total = {"cases": 0, "failures": 0, "engine_mismatches": 0, "crosschecked": 0}
+    registry = driver.load_registry()
     for key in keys:
-        if key not in CORPORA:
+        if key in CORPORA:
+            corpus = CORPORA[key](run.tier, run.seed)
+        elif key in registry and not key.startswith("vf.contracts.laws") and not getattr(registry[key], "opaque", None):
+            corpus = contract_rt.auto_corpus(registry[key])  # (contracts over opaque calls have no CPython counterpart of their log)
+        else:
             continue
-        corpus = CORPORA[key](run.tier, run.seed)
         n = fails = cross = 0
         for rec in contract_rt.run_corpus(key, corpus):
             if rec["case"] is None:
